@@ -17,8 +17,8 @@ Modelled, branch by branch:
   * ValidateRequestBody: read + restore when there is a body; zero bytes → `required` decides; otherwise the
     outcome of decoding/validating (`BodyOutcome`, computed by the value layer KinModel/C13Body.lean) decides;
     only an accepted body whose defaults were set is re-encoded and re-installed (`rewrite`); when no encoder is
-    registered for the media type the request is rejected (`rewriteFails`) — and, as the failed call has set the
-    variable `data` to nil, a GetBody installed by the restore a few lines above now rewinds to an EMPTY body.
+    registered for the media type the request is rejected (`rewriteFails`) — the encoded bytes live in their own
+    variable (repaired code, commit ac404f7), so the request keeps the body and the GetBody of the restore above.
 Abstracted: what an authentication callback does is one of "nothing" / "reads the whole body", with a verdict.
 -/
 namespace KinModel.C13.Stream
@@ -131,10 +131,7 @@ def bodyPhase (required : Bool) (outcome : Bytes → BodyOutcome) (r : Req) : Re
       | .reject => (r1, false)
       | .accept => (r1, true)
       | .rewrite nd => ({ body := some nd, getBody := .ok nd, contentLength := nd.length }, true)
-      | .rewriteFails =>
-        -- `data, err = encodeBody(…)` has overwritten `data` with nil, and the GetBody closure that the restore above
-        -- installed (when the request had no working GetBody of its own) reads that very variable
-        ((match r.getBody with | .ok _ => restore (drain r) data | _ => { restore (drain r) data with getBody := .ok [] }), false)
+      | .rewriteFails => (r1, false)             -- "rewriting failed": nothing is installed, nothing is lost
 
 structure Cfg where
   hasAuthFunc : Bool
